@@ -1,6 +1,1265 @@
-//! C19 (under construction)
+//! C19: the debugger reports where the machine really is. The full simulated
+//! `mos lsp` process runs a DAP session on the emulated test machine; a seeded
+//! client issues requests with simulated delays; every interleaving of session,
+//! machine, poller and IO threads is decided by the scheduler. Reference model:
+//! the real `TestRunner` run sequentially on the same program; the register
+//! `CYC` (strictly increasing per instruction) identifies the true machine
+//! position from protocol-visible data alone.
+
+use super::clients::{ClientErr, DapClient, LspClient};
 use super::*;
-pub fn main(_cli: &Cli) -> i32 {
-    eprintln!("C19 engine not built yet");
-    EXIT_HARNESS
+use crate::commands::{lsp_command, LspArgs};
+use crate::test_runner::{ExecuteResult, TestRunner};
+use mos_core::parser::source::InMemoryParsingSource;
+use mos_simrt::rng::{self, Rng};
+use mos_simrt::shuttle;
+use std::collections::BTreeSet;
+use std::ops::Range;
+use std::path::Path;
+use std::time::Duration;
+
+const PROP: &str = "C19";
+pub const PORT: u16 = 6503;
+
+// ---------------------------------------------------------------------------------------
+// Workload: programs and client scripts
+// ---------------------------------------------------------------------------------------
+
+#[derive(Clone, Debug, PartialEq)]
+pub enum Op {
+    Delay(u64),
+    WaitStopped(u64),
+    Pause,
+    Continue,
+    Next,
+    StepIn,
+    StepOut,
+    StackTrace,
+    Scopes,
+    Vars(u8),
+    Evaluate(String),
+    SetBreakpoints(Vec<(usize, Option<usize>)>),
+    Threads,
+}
+
+impl Op {
+    fn to_json(&self) -> Value {
+        match self {
+            Op::Delay(us) => json!({"op": "delay", "us": us}),
+            Op::WaitStopped(ms) => json!({"op": "wait_stopped", "ms": ms}),
+            Op::Pause => json!({"op": "pause"}),
+            Op::Continue => json!({"op": "continue"}),
+            Op::Next => json!({"op": "next"}),
+            Op::StepIn => json!({"op": "stepIn"}),
+            Op::StepOut => json!({"op": "stepOut"}),
+            Op::StackTrace => json!({"op": "stackTrace"}),
+            Op::Scopes => json!({"op": "scopes"}),
+            Op::Vars(n) => json!({"op": "variables", "ref": n}),
+            Op::Evaluate(e) => json!({"op": "evaluate", "expr": e}),
+            Op::SetBreakpoints(b) => json!({"op": "setBreakpoints", "lines": b.iter().map(|(l, c)| json!([l, c])).collect::<Vec<_>>()}),
+            Op::Threads => json!({"op": "threads"}),
+        }
+    }
+    fn from_json(v: &Value) -> Option<Op> {
+        Some(match v.get("op")?.as_str()? {
+            "delay" => Op::Delay(v.get("us")?.as_u64()?),
+            "wait_stopped" => Op::WaitStopped(v.get("ms")?.as_u64()?),
+            "pause" => Op::Pause,
+            "continue" => Op::Continue,
+            "next" => Op::Next,
+            "stepIn" => Op::StepIn,
+            "stepOut" => Op::StepOut,
+            "stackTrace" => Op::StackTrace,
+            "scopes" => Op::Scopes,
+            "variables" => Op::Vars(v.get("ref")?.as_u64()? as u8),
+            "evaluate" => Op::Evaluate(v.get("expr")?.as_str()?.to_string()),
+            "setBreakpoints" => Op::SetBreakpoints(
+                v.get("lines")?
+                    .as_array()?
+                    .iter()
+                    .map(|p| Some((p.get(0)?.as_u64()? as usize, p.get(1).and_then(|c| c.as_u64()).map(|c| c as usize))))
+                    .collect::<Option<Vec<_>>>()?,
+            ),
+            "threads" => Op::Threads,
+            _ => return None,
+        })
+    }
+}
+
+#[derive(Clone, Debug)]
+pub struct Case {
+    pub program: String,
+    pub initial_bps: Vec<(usize, Option<usize>)>,
+    pub ops: Vec<Op>,
+    pub lines_start_at_1: bool,
+    pub seed: u64,
+    pub entropy_seed: u64,
+    pub knobs: ExecKnobs,
+    pub end_with_drop: bool,
+}
+
+impl Case {
+    pub fn to_json(&self) -> Value {
+        json!({
+            "engine": "threadsim/C19", "program": self.program,
+            "initial_breakpoints": self.initial_bps.iter().map(|(l, c)| json!([l, c])).collect::<Vec<_>>(),
+            "ops": self.ops.iter().map(|o| o.to_json()).collect::<Vec<_>>(),
+            "lines_start_at_1": self.lines_start_at_1,
+            "sched_seed": format!("{:#x}", self.seed), "entropy_seed": format!("{:#x}", self.entropy_seed),
+            "knobs": self.knobs.to_json(), "end_with_drop": self.end_with_drop,
+        })
+    }
+    pub fn from_json(v: &Value) -> Option<Case> {
+        Some(Case {
+            program: v.get("program")?.as_str()?.to_string(),
+            initial_bps: v
+                .get("initial_breakpoints")?
+                .as_array()?
+                .iter()
+                .map(|p| Some((p.get(0)?.as_u64()? as usize, p.get(1).and_then(|c| c.as_u64()).map(|c| c as usize))))
+                .collect::<Option<Vec<_>>>()?,
+            ops: v.get("ops")?.as_array()?.iter().map(Op::from_json).collect::<Option<Vec<_>>>()?,
+            lines_start_at_1: v.get("lines_start_at_1")?.as_bool()?,
+            seed: v.get("sched_seed").and_then(|s| s.as_str()).and_then(parse_u64)?,
+            entropy_seed: v.get("entropy_seed").and_then(|s| s.as_str()).and_then(parse_u64)?,
+            knobs: ExecKnobs::from_json(v.get("knobs")?)?,
+            end_with_drop: v.get("end_with_drop").and_then(|b| b.as_bool()).unwrap_or(false),
+        })
+    }
+}
+
+const STRAIGHT: &[&str] = &[
+    "lda #$11", "ldx #$22", "ldy #$33", "sta $10", "stx $11", "sty $12", "inx", "iny", "dex", "dey", "tax", "tay", "txa",
+    "tya", "clc", "sec", "adc #$05", "nop", "inc $10", "dec $11", "lda $10", "ora #$40", "and #$7f", "eor #$ff", "asl", "lsr",
+];
+
+/// One `.test` body from a small grammar over the subset the property names:
+/// straight-line code, counted loops, subroutines (nesting <= 2), optional
+/// macro / .loop expansion so several addresses map to one line, asserts/traces.
+pub fn gen_program(rng: &mut Rng) -> String {
+    let mut top = String::new();
+    let use_macro = rng.chance(1, 3);
+    if use_macro {
+        top.push_str(".macro put(v) {\n    lda #v\n    sta $20\n}\n");
+    }
+    let n_subs = rng.below(3);
+    let mut body = String::new();
+    let mut label_id = 0;
+    let mut emit_block = |rng: &mut Rng, out: &mut String, depth: usize, n_subs: usize, allow_calls: bool| {
+        let n = rng.range(2, 6);
+        for _ in 0..n {
+            match rng.below(10) {
+                0 | 1 => {
+                    // counted loop
+                    label_id += 1;
+                    let cnt = rng.range(1, 6);
+                    let reg = if rng.chance(1, 2) { ("ldx", "dex") } else { ("ldy", "dey") };
+                    out.push_str(&format!("    {} #{}\nloop{}:\n", reg.0, cnt, label_id));
+                    for _ in 0..rng.range(1, 3) {
+                        let ins = loop {
+                            let i = *rng.pick(STRAIGHT);
+                            // the loop body must not clobber its counter
+                            if !(i.starts_with("ld") && i.contains(&reg.0[2..3])) && !i.starts_with("ta") && !i.starts_with("in") && !i.starts_with("de") {
+                                break i;
+                            }
+                        };
+                        out.push_str(&format!("    {}\n", ins));
+                    }
+                    out.push_str(&format!("    {}\n    bne loop{}\n", reg.1, label_id));
+                }
+                2 if allow_calls && n_subs > 0 && depth < 2 => {
+                    out.push_str(&format!("    jsr sub{}\n", rng.below(n_subs)));
+                }
+                3 if use_macro => {
+                    out.push_str(&format!("    put({})\n", rng.below(200)));
+                }
+                4 => {
+                    out.push_str(&format!(".loop {} {{\n    inx\n}}\n", rng.range(2, 3)));
+                }
+                5 if rng.chance(1, 2) => {
+                    out.push_str(if rng.chance(1, 2) { "    .assert 1 == 1\n" } else { "    .trace (cpu.a)\n" });
+                }
+                _ => {
+                    out.push_str(&format!("    {}\n", rng.pick(STRAIGHT)));
+                }
+            }
+        }
+    };
+    emit_block(rng, &mut body, 0, n_subs, true);
+    if n_subs > 0 && !body.contains("jsr") {
+        body.push_str("    jsr sub0\n");
+    }
+    emit_block(rng, &mut body, 0, n_subs, true);
+    body.push_str("    brk\n");
+    for s in 0..n_subs {
+        body.push_str(&format!("sub{}:\n", s));
+        let mut sub = String::new();
+        // sub1 may call sub0 (nesting <= 2), sub0 calls nothing
+        emit_block(rng, &mut sub, 1, if s > 0 { 1 } else { 0 }, s > 0);
+        body.push_str(&sub);
+        body.push_str("    rts\n");
+    }
+    format!("{}.test \"t\" {{\n{}}}\n", top, body)
+}
+
+pub fn gen_case(seed: u64, k: u64) -> Case {
+    let mut r = Rng::new(rng::derive(seed, "c19.case", k));
+    let program = gen_program(&mut r);
+    let n_lines = program.lines().count();
+    let code_lines: Vec<usize> = program
+        .lines()
+        .enumerate()
+        .filter(|(_, l)| {
+            let t = l.trim();
+            l.starts_with("    ") && !t.starts_with('.') && !t.is_empty()
+        })
+        .map(|(i, _)| i)
+        .collect();
+    let pick_bps = |r: &mut Rng| -> Vec<(usize, Option<usize>)> {
+        let n = r.below(4);
+        let mut v = vec![];
+        for _ in 0..n {
+            let line = if r.chance(1, 8) || code_lines.is_empty() { r.below(n_lines.max(1)) } else { *r.pick(&code_lines) };
+            let col = if r.chance(1, 6) { Some(r.range(4, 8)) } else { None };
+            if !v.iter().any(|(l, _)| *l == line) {
+                v.push((line, col));
+            }
+        }
+        v
+    };
+    let initial_bps = pick_bps(&mut r);
+    // swarm weights
+    let w: Vec<u32> = (0..13).map(|_| 1 + r.below(6) as u32).collect();
+    let delays: [u64; 8] = [0, 0, 1_000, 10_000, 49_000, 50_000, 51_000, 200_000];
+    let n_ops = r.range(6, 40);
+    let mut ops = vec![];
+    for _ in 0..n_ops {
+        if r.chance(2, 3) {
+            ops.push(Op::Delay(*r.pick(&delays) + r.below(500) as u64));
+        }
+        let op = match r.weighted(&w) {
+            0 => Op::WaitStopped(*r.pick(&[60u64, 200, 1000])),
+            1 => Op::Pause,
+            2 => Op::Continue,
+            3 => Op::Next,
+            4 => Op::StepIn,
+            5 => Op::StepOut,
+            6 => Op::StackTrace,
+            7 => Op::Scopes,
+            8 => Op::Vars(*r.pick(&[1u8, 1, 2, 3])),
+            9 => Op::Evaluate(r.pick_str(&["cpu.a", "cpu.x", "cpu.y", "cpu.a + cpu.x", "cpu.flags.zero", "cpu.flags.carry"]).to_string()),
+            10 => Op::SetBreakpoints(pick_bps(&mut r)),
+            11 => Op::Threads,
+            _ => Op::Vars(1),
+        };
+        ops.push(op);
+    }
+    Case {
+        program,
+        initial_bps,
+        ops,
+        lines_start_at_1: r.chance(1, 2),
+        seed: rng::derive(seed, "c19.sched", k),
+        entropy_seed: rng::derive(seed, "c19.entropy", k),
+        knobs: ExecKnobs {
+            sched: mos_simrt::sched::SchedKnobs {
+                stay_bias: *r.pick(&[0u32, 0, 30, 60, 90]),
+                early_coin: *r.pick(&[2u32, 4, 8, 16]),
+                stall_bound_us: 1_000_000,
+            },
+            net: mos_simrt::net::NetKnobs { max_chunk: *r.pick(&[0usize, 0, 0, 3, 64]), buffer_cap: *r.pick(&[1usize << 20, 1 << 20, 4096]) },
+            max_steps: 600_000,
+        },
+        end_with_drop: r.chance(1, 4),
+    }
+}
+
+// ---------------------------------------------------------------------------------------
+// Reference model: the real TestRunner, run sequentially
+// ---------------------------------------------------------------------------------------
+
+#[derive(Clone, Debug)]
+pub struct TraceEntry {
+    pub cycles: u64,
+    pub pc: u16,
+    pub a: u8,
+    pub x: u8,
+    pub y: u8,
+    pub sp: u8,
+    pub flags: u8,
+    pub opcode: u8,
+    /// return target on top of the reference call stack before this instruction
+    pub return_to: Option<u16>,
+}
+
+#[derive(Clone, Debug)]
+pub struct Frame {
+    pub path: String,
+    pub line: usize,
+    pub column: usize,
+    pub end_line: usize,
+    pub end_column: usize,
+}
+
+pub struct Reference {
+    pub trace: Vec<TraceEntry>,
+    /// span of every pc of the trace: (path, begin line, begin col, end line, end col), 0-based
+    pub frames: BTreeMap<u16, Option<Frame>>,
+    pub ok: bool,
+    pub error: String,
+    pub bp_ranges: BTreeMap<(usize, Option<usize>), Vec<Range<usize>>>,
+    pub n_lines: usize,
+}
+
+pub const MAX_TRACE: usize = 3000;
+
+pub fn build_reference(program: &str, path: &str) -> Reference {
+    let mut reference = Reference { trace: vec![], frames: BTreeMap::new(), ok: false, error: String::new(), bp_ranges: BTreeMap::new(), n_lines: program.lines().count() };
+    let src = InMemoryParsingSource::new().add(path, program).into();
+    let mut runner = match TestRunner::new(src, Path::new(path), &"t".into()) {
+        Ok(r) => r,
+        Err(e) => {
+            reference.error = e.to_string();
+            return reference;
+        }
+    };
+    let codegen = runner.codegen();
+    let mut call_stack: Vec<u16> = vec![];
+    loop {
+        let cpu = runner.cpu();
+        let pc = cpu.get_program_counter();
+        let opcode = {
+            let cg = codegen.lock().unwrap();
+            let _ = &cg;
+            0u8
+        };
+        let _ = opcode;
+        let entry = TraceEntry {
+            cycles: runner.num_cycles() as u64,
+            pc,
+            a: cpu.get_accumulator(),
+            x: cpu.get_x_register(),
+            y: cpu.get_y_register(),
+            sp: cpu.get_stack_pointer(),
+            flags: cpu.get_status_register(),
+            opcode: 0,
+            return_to: call_stack.last().cloned(),
+        };
+        reference.trace.push(entry);
+        if reference.trace.len() > MAX_TRACE {
+            reference.error = "program too long".into();
+            return reference;
+        }
+        let sp_before = runner.cpu().get_stack_pointer();
+        match runner.execute_instruction() {
+            Ok(ExecuteResult::Running) => {
+                let sp_after = runner.cpu().get_stack_pointer();
+                let new_pc = runner.cpu().get_program_counter();
+                // jsr pushes two bytes and jumps; rts pops two bytes
+                if sp_after == sp_before.wrapping_sub(2) && new_pc != pc.wrapping_add(1) {
+                    call_stack.push(pc.wrapping_add(3));
+                    reference.trace.last_mut().unwrap().opcode = 0x20;
+                } else if sp_after == sp_before.wrapping_add(2) {
+                    call_stack.pop();
+                    reference.trace.last_mut().unwrap().opcode = 0x60;
+                }
+            }
+            Ok(ExecuteResult::TestSuccess(_)) => break,
+            Ok(ExecuteResult::TestFailed(_, _)) => break,
+            Err(e) => {
+                reference.error = e.to_string();
+                return reference;
+            }
+        }
+    }
+    // source locations and breakpoint ranges, through the same source map the server uses
+    let cg = codegen.lock().unwrap();
+    let pcs: BTreeSet<u16> = reference.trace.iter().map(|t| t.pc).collect();
+    for pc in pcs {
+        let f = cg.source_map().address_to_offset(pc as usize).map(|o| {
+            let sl = cg.tree().code_map.look_up_span(o.span);
+            Frame { path: sl.file.name().to_string(), line: sl.begin.line, column: sl.begin.column, end_line: sl.end.line, end_column: sl.end.column }
+        });
+        reference.frames.insert(pc, f);
+    }
+    reference.ok = true;
+    reference
+}
+
+impl Reference {
+    pub fn ranges_for(&mut self, program: &str, path: &str, line: usize, col: Option<usize>) -> Vec<Range<usize>> {
+        if let Some(r) = self.bp_ranges.get(&(line, col)) {
+            return r.clone();
+        }
+        // recompute through a fresh codegen of the same program (cheap, deterministic)
+        let src = InMemoryParsingSource::new().add(path, program).into();
+        let v = match TestRunner::new(src, Path::new(path), &"t".into()) {
+            Ok(runner) => {
+                let cg = runner.codegen();
+                let cg = cg.lock().unwrap();
+                let r: Vec<Range<usize>> = cg.source_map().line_col_to_offsets(&cg.tree().code_map, path, line, col).into_iter().map(|o| o.pc.clone()).collect();
+                r
+            }
+            Err(_) => vec![],
+        };
+        self.bp_ranges.insert((line, col), v.clone());
+        v
+    }
+    pub fn index_of_cycles(&self, cyc: u64) -> Option<usize> {
+        self.trace.iter().position(|t| t.cycles == cyc)
+    }
+}
+
+// ---------------------------------------------------------------------------------------
+// Scenario
+// ---------------------------------------------------------------------------------------
+
+#[derive(Clone, Debug)]
+pub struct Found {
+    pub class: String,
+    pub sig: String,
+    pub message: String,
+}
+
+#[derive(Clone, Debug, Default)]
+pub struct Verdict {
+    pub found: Option<(String, String, String)>,
+    pub setup_ok: bool,
+    pub stops_observed: u64,
+    pub pauses: u64,
+    pub steps: u64,
+    pub resumes: u64,
+    pub bp_changes_while_running: u64,
+    pub checks: BTreeMap<String, u64>,
+    pub terminated: bool,
+    pub trace_len: usize,
+    pub notes: Vec<String>,
+    pub ops_done: u64,
+}
+
+#[derive(Clone, Debug, PartialEq)]
+enum View {
+    Running,
+    Stopped(usize),
+    Terminated,
+    Unknown,
+}
+
+struct Session<'a> {
+    case: &'a Case,
+    reference: Reference,
+    dap: DapClient,
+    v: Verdict,
+    view: View,
+    /// breakpoint requests currently active in the adapter: (line0, col)
+    active_bps: Vec<(usize, Option<usize>)>,
+    /// free-run bookkeeping
+    run_from: Option<i64>,
+    run_bps_throughout: Vec<(usize, Option<usize>)>,
+    /// every breakpoint that was active at some moment of the current free run
+    run_bps_ever: Vec<(usize, Option<usize>)>,
+    /// breakpoints set while running: (bp, index observed after the response)
+    run_bps_added: Vec<((usize, Option<usize>), Option<usize>)>,
+    pause_sent: bool,
+    path: String,
+}
+
+fn var_value(resp: &Value, name: &str) -> Option<String> {
+    resp.get("body")?
+        .get("variables")?
+        .as_array()?
+        .iter()
+        .find(|v| v.get("name").and_then(|n| n.as_str()) == Some(name))
+        .and_then(|v| v.get("value").and_then(|x| x.as_str()).map(|s| s.to_string()))
+}
+
+impl<'a> Session<'a> {
+    fn fail(&mut self, class: &str, sig: &str, msg: String) {
+        if self.v.found.is_none() {
+            hist("harness", "violation", json!({"class": class, "message": msg}));
+            self.v.found = Some((class.to_string(), sig.to_string(), msg));
+        }
+    }
+    fn count(&mut self, k: &str) {
+        *self.v.checks.entry(k.to_string()).or_insert(0) += 1;
+    }
+    fn line_out(&self, l: usize) -> usize {
+        if self.case.lines_start_at_1 { l + 1 } else { l }
+    }
+
+    fn in_ranges(&mut self, pc: u16, bps: &[(usize, Option<usize>)]) -> bool {
+        let program = self.case.program.clone();
+        let path = self.path.clone();
+        for (l, c) in bps {
+            for r in self.reference.ranges_for(&program, &path, *l, *c) {
+                if r.start <= pc as usize && (pc as usize) < r.end {
+                    return true;
+                }
+            }
+        }
+        false
+    }
+
+    /// variables(1): returns the index identified by CYC (and checks registers when `check` is set)
+    fn query_registers(&mut self, check_against: Option<usize>) -> Result<Option<usize>, ClientErr> {
+        let r = self.dap.request("variables", json!({"variablesReference": 1}))?;
+        let cyc = var_value(&r, "CYC").and_then(|s| s.parse::<u64>().ok());
+        let cyc = match cyc {
+            Some(c) => c,
+            None => return Ok(None),
+        };
+        let idx = self.reference.index_of_cycles(cyc);
+        if idx.is_none() {
+            self.fail("state_not_on_reference_run", "state_not_on_reference_run", format!("registers report CYC={} which is not a state of the uninterrupted run", cyc));
+            return Ok(None);
+        }
+        let idx = idx.unwrap();
+        if let Some(exp) = check_against {
+            self.count("halted_cyc_stable");
+            if idx != exp {
+                let (e, g) = (self.reference.trace[exp].clone(), self.reference.trace[idx].clone());
+                self.fail(
+                    "machine_moved_while_stopped",
+                    "moved_while_stopped",
+                    format!("the machine is reported stopped at instruction #{} (pc ${:04x}) but its registers now show instruction #{} (pc ${:04x}, CYC {}): it executed while stopped", exp, e.pc, idx, g.pc, cyc),
+                );
+                return Ok(Some(idx));
+            }
+            let t = self.reference.trace[idx].clone();
+            for (n, want) in [("A", t.a), ("X", t.x), ("Y", t.y)] {
+                let got = var_value(&r, n).and_then(|s| s.parse::<i64>().ok());
+                self.count("register_values");
+                if got != Some(want as i64) {
+                    self.fail("wrong_register", "wrong_register", format!("register {} reported {:?}, the machine at instruction #{} has {}", n, got, idx, want));
+                }
+            }
+        }
+        Ok(Some(idx))
+    }
+
+    /// Called when the client learns that the machine stopped. Establishes the true index and checks run rules.
+    fn on_stopped(&mut self, by_step_expect: Option<usize>) -> Result<(), ClientErr> {
+        self.v.stops_observed += 1;
+        let idx = match self.query_registers(None)? {
+            Some(i) => i,
+            None => {
+                self.view = View::Unknown;
+                return Ok(());
+            }
+        };
+        // the machine must be halted: a second look after >= 51 ms of simulated time
+        clock::sleep(Duration::from_millis(51));
+        if self.query_registers(Some(idx))?.is_none() {
+            self.view = View::Unknown;
+            return Ok(());
+        }
+        if self.v.found.is_some() {
+            self.view = View::Stopped(idx);
+            return Ok(());
+        }
+        if let Some(exp) = by_step_expect {
+            self.count("step_target");
+            if idx != exp {
+                let (e, g) = (self.reference.trace[exp].clone(), self.reference.trace[idx].clone());
+                self.fail("step_target", "step_target", format!("after the step the machine should be at instruction #{} (pc ${:04x}) of the uninterrupted run, it is at #{} (pc ${:04x})", exp, e.pc, idx, g.pc));
+            }
+        } else if let Some(i0) = self.run_from.take() {
+            // free run from i0 (-1: launch, nothing executed yet) to idx; the instruction at i0
+            // itself may lie on a breakpoint (resuming from it is legal)
+            let throughout = self.run_bps_throughout.clone();
+            let added = self.run_bps_added.clone();
+            for k in ((i0 + 1) as usize)..idx {
+                let pc = self.reference.trace[k].pc;
+                self.count("no_breakpoint_run_over");
+                let mut hit = self.in_ranges(pc, &throughout);
+                if !hit {
+                    for (bp, since) in &added {
+                        if let Some(s) = since {
+                            if k > *s && self.in_ranges(pc, &[*bp]) {
+                                hit = true;
+                            }
+                        }
+                    }
+                }
+                if hit {
+                    self.fail(
+                        "breakpoint_run_over",
+                        "breakpoint_run_over",
+                        format!("free run from instruction #{} to #{}: instruction #{} at pc ${:04x} lies in an active breakpoint range but was executed without stopping", i0, idx, k, pc),
+                    );
+                    break;
+                }
+            }
+            if !self.pause_sent && self.v.found.is_none() {
+                let pc = self.reference.trace[idx].pc;
+                let all = self.run_bps_ever.clone();
+                self.count("stop_at_breakpoint");
+                if !self.in_ranges(pc, &all) {
+                    self.fail("stop_without_cause", "stop_without_cause", format!("the machine stopped at instruction #{} (pc ${:04x}) although no breakpoint covers it and no pause was requested", idx, pc));
+                }
+            }
+        }
+        self.pause_sent = false;
+        self.run_bps_added.clear();
+        self.view = View::Stopped(idx);
+        Ok(())
+    }
+
+    fn begin_free_run(&mut self, from: i64) {
+        self.run_from = Some(from);
+        self.run_bps_throughout = self.active_bps.clone();
+        self.run_bps_ever = self.active_bps.clone();
+        self.run_bps_added.clear();
+        self.pause_sent = false;
+        self.view = View::Running;
+        // a `stopped` event received before the resume was requested cannot refer to this run
+        while self.dap.take_event("stopped").is_some() {}
+    }
+
+    fn expected_after(&self, op: &Op, i: usize) -> usize {
+        let t = &self.reference.trace;
+        let last = t.len() - 1;
+        match op {
+            Op::StepIn => (i + 1).min(last),
+            Op::Next => {
+                if t[i].opcode == 0x20 {
+                    let target = t[i].pc.wrapping_add(3);
+                    ((i + 1)..t.len()).find(|k| t[*k].pc == target).unwrap_or(last)
+                } else {
+                    (i + 1).min(last)
+                }
+            }
+            Op::StepOut => match t[i].return_to {
+                Some(target) => (i..t.len()).find(|k| t[*k].pc == target).unwrap_or(last),
+                None => i,
+            },
+            _ => i,
+        }
+    }
+
+    fn check_stack_trace(&mut self, idx: usize) -> Result<(), ClientErr> {
+        let r = self.dap.request("stackTrace", json!({"threadId": 1}))?;
+        let frames = r.get("body").and_then(|b| b.get("stackFrames")).and_then(|f| f.as_array()).cloned().unwrap_or_default();
+        let pc = self.reference.trace[idx].pc;
+        let want = self.reference.frames.get(&pc).cloned().flatten();
+        self.count("frame_contains_pc");
+        match (frames.first(), want) {
+            (Some(f), Some(w)) => {
+                let got = (
+                    f.get("line").and_then(|x| x.as_u64()).unwrap_or(u64::MAX) as usize,
+                    f.get("endLine").and_then(|x| x.as_u64()).unwrap_or(u64::MAX) as usize,
+                    f.get("source").and_then(|s| s.get("path")).and_then(|p| p.as_str()).unwrap_or("").to_string(),
+                );
+                let exp = (self.line_out(w.line), self.line_out(w.end_line), w.path.clone());
+                if got != exp {
+                    self.fail(
+                        "frame_not_at_pc",
+                        "frame_not_at_pc",
+                        format!("the machine is halted at instruction #{} (pc ${:04x}, source lines {}..{}) but the reported frame is lines {}..{} of {}", idx, pc, exp.0, exp.1, got.0, got.1, got.2),
+                    );
+                }
+            }
+            (None, Some(w)) => {
+                self.fail("frame_missing", "frame_missing", format!("no stack frame is reported although the machine is halted at pc ${:04x} (line {})", pc, self.line_out(w.line)));
+            }
+            _ => {}
+        }
+        Ok(())
+    }
+
+    fn apply_op(&mut self, op: &Op) -> Result<(), ClientErr> {
+        self.v.ops_done += 1;
+        // keep the client's view up to date with what has already arrived
+        self.dap.drain();
+        if self.dap.take_event("terminated").is_some() {
+            self.v.terminated = true;
+            self.view = View::Terminated;
+        }
+        if self.view == View::Running {
+            if self.dap.take_event("stopped").is_some() {
+                self.on_stopped(None)?;
+            }
+        }
+        if self.view == View::Terminated || self.view == View::Unknown {
+            return Ok(());
+        }
+        match (op, self.view.clone()) {
+            (Op::Delay(us), _) => clock::sleep(Duration::from_micros(*us)),
+            (Op::WaitStopped(ms), View::Running) => {
+                if self.dap.wait_event("stopped", Duration::from_millis(*ms)).is_some() {
+                    self.on_stopped(None)?;
+                } else if self.dap.take_event("terminated").is_some() {
+                    self.v.terminated = true;
+                    self.view = View::Terminated;
+                }
+            }
+            (Op::Pause, View::Running) => {
+                self.v.pauses += 1;
+                self.pause_sent = true;
+                let r = self.dap.request("pause", json!({"threadId": 1}))?;
+                if r.get("success").and_then(|s| s.as_bool()) == Some(true) {
+                    if self.dap.wait_event("stopped", Duration::from_secs(5)).is_some() {
+                        self.on_stopped(None)?;
+                    } else if self.dap.take_event("terminated").is_some() {
+                        self.v.terminated = true;
+                        self.view = View::Terminated;
+                    }
+                }
+            }
+            (Op::Continue, View::Stopped(i)) => {
+                self.v.resumes += 1;
+                self.dap.request("continue", json!({"threadId": 1}))?;
+                self.begin_free_run(i as i64);
+            }
+            (Op::StepOut, View::Stopped(i)) if self.reference.trace[i].return_to.is_none() => {
+                // not inside a subroutine: the property does not say what stepOut means here
+            }
+            (Op::Next, View::Stopped(i)) | (Op::StepIn, View::Stopped(i)) | (Op::StepOut, View::Stopped(i)) => {
+                self.v.steps += 1;
+                while self.dap.take_event("stopped").is_some() {}
+                let cmd = match op {
+                    Op::Next => "next",
+                    Op::StepIn => "stepIn",
+                    _ => "stepOut",
+                };
+                let exp = self.expected_after(op, i);
+                let r = self.dap.request(cmd, json!({"threadId": 1}))?;
+                if r.get("success").and_then(|s| s.as_bool()) == Some(true) {
+                    let _ = self.dap.wait_event("stopped", Duration::from_secs(5));
+                    self.on_stopped(Some(exp))?;
+                }
+            }
+            (Op::StackTrace, View::Stopped(i)) => self.check_stack_trace(i)?,
+            (Op::StackTrace, _) => {
+                let _ = self.dap.request("stackTrace", json!({"threadId": 1}))?;
+            }
+            (Op::Scopes, _) => {
+                let _ = self.dap.request("scopes", json!({"frameId": 1}))?;
+            }
+            (Op::Threads, _) => {
+                let _ = self.dap.request("threads", Value::Null)?;
+            }
+            (Op::Vars(1), View::Stopped(i)) => {
+                self.query_registers(Some(i))?;
+            }
+            (Op::Vars(1), View::Running) => {
+                let _ = self.query_registers(None)?;
+            }
+            (Op::Vars(2), View::Stopped(i)) => {
+                let r = self.dap.request("variables", json!({"variablesReference": 2}))?;
+                let f = self.reference.trace[i].flags;
+                for (name, bit) in [("N - Negative", 128u8), ("V - Overflow", 64), ("Z - Zero", 2), ("C - Carry", 1)] {
+                    self.count("flag_values");
+                    let want = if f & bit != 0 { "true" } else { "false" };
+                    if var_value(&r, name).as_deref() != Some(want) {
+                        self.fail("wrong_flag", "wrong_flag", format!("flag '{}' reported {:?}, the halted machine (instruction #{}) has {}", name, var_value(&r, name), i, want));
+                    }
+                }
+            }
+            (Op::Vars(n), _) => {
+                let _ = self.dap.request("variables", json!({"variablesReference": n}))?;
+            }
+            (Op::Evaluate(e), View::Stopped(i)) => {
+                let r = self.dap.request("evaluate", json!({"expression": e}))?;
+                let t = self.reference.trace[i].clone();
+                let want: Option<i64> = match e.as_str() {
+                    "cpu.a" => Some(t.a as i64),
+                    "cpu.x" => Some(t.x as i64),
+                    "cpu.y" => Some(t.y as i64),
+                    "cpu.a + cpu.x" => Some(t.a as i64 + t.x as i64),
+                    "cpu.flags.zero" => Some((t.flags & 2) as i64),
+                    "cpu.flags.carry" => Some((t.flags & 1) as i64),
+                    _ => None,
+                };
+                if let (Some(w), true) = (want, r.get("success").and_then(|s| s.as_bool()) == Some(true)) {
+                    let got = r.get("body").and_then(|b| b.get("result")).and_then(|x| x.as_str()).map(|s| s.to_string());
+                    self.count("evaluate_values");
+                    if got.as_deref() != Some(w.to_string().as_str()) {
+                        self.fail("wrong_evaluate", "wrong_evaluate", format!("evaluate '{}' returned {:?}, the halted machine (instruction #{}) gives {}", e, got, i, w));
+                    }
+                }
+            }
+            (Op::Evaluate(e), _) => {
+                let _ = self.dap.request("evaluate", json!({"expression": e}))?;
+            }
+            (Op::SetBreakpoints(bps), view) => {
+                let lines: Vec<Value> = bps
+                    .iter()
+                    .map(|(l, c)| match c {
+                        Some(c) => json!({"line": self.line_out(*l), "column": if self.case.lines_start_at_1 { c + 1 } else { *c }}),
+                        None => json!({"line": self.line_out(*l)}),
+                    })
+                    .collect();
+                let r = self.dap.request("setBreakpoints", json!({"source": {"path": self.path}, "breakpoints": lines}))?;
+                if r.get("success").and_then(|s| s.as_bool()) == Some(true) {
+                    self.active_bps = bps.clone();
+                    if view == View::Running {
+                        self.v.bp_changes_while_running += 1;
+                        // only breakpoints that stay for the whole run are judged from its start
+                        let keep: Vec<_> = self.run_bps_throughout.iter().filter(|b| bps.contains(b)).cloned().collect();
+                        self.run_bps_throughout = keep;
+                        // breakpoints added earlier in this run and now removed again are no longer judged
+                        // (the moment of their removal relative to the machine's position is unknown)
+                        self.run_bps_added.retain(|(b, _)| bps.contains(b));
+                        let since = self.query_registers(None)?;
+                        for b in bps {
+                            if !self.run_bps_throughout.contains(b) && !self.run_bps_added.iter().any(|(x, _)| x == b) {
+                                self.run_bps_added.push((*b, since));
+                            }
+                            if !self.run_bps_ever.contains(b) {
+                                self.run_bps_ever.push(*b);
+                            }
+                        }
+                    }
+                }
+            }
+            _ => {}
+        }
+        Ok(())
+    }
+}
+
+pub fn scenario(case: &Case, slot: &Arc<StdMutex<Option<Verdict>>>) {
+    let path = format!("{}/main.asm", WS);
+    let reference = build_reference(&case.program, &path);
+    let mut verdict = Verdict { trace_len: reference.trace.len(), ..Default::default() };
+    if !reference.ok {
+        verdict.notes.push(format!("reference run failed: {}", reference.error));
+        *slot.lock().unwrap() = Some(verdict);
+        panic!("{} no reference", ABORT_MARKER);
+    }
+    let (w, r) = pipe::create();
+    let _main = shuttle::thread::Builder::new()
+        .name("main".into())
+        .spawn(move || {
+            let _ = std::panic::catch_unwind(|| {
+                let args = <LspArgs as argh::FromArgs>::from_args(&["lsp"], &[]).expect("args");
+                lsp_command(&args)
+            });
+        })
+        .expect("spawn main");
+    let mut lsp = LspClient::new(w, r);
+    let setup = (|| -> Result<DapClient, ClientErr> {
+        lsp.initialize()?;
+        lsp.did_open(&path, &case.program)?;
+        let mut c = DapClient::connect(PORT, 400).ok_or(ClientErr::Closed)?;
+        c.request("initialize", json!({"clientID": "sim", "linesStartAt1": case.lines_start_at_1, "columnsStartAt1": case.lines_start_at_1}))?;
+        let l = c.request("launch", json!({"workspace": WS, "testRunner": {"testCaseName": "t"}}))?;
+        if l.get("success").and_then(|s| s.as_bool()) != Some(true) {
+            return Err(ClientErr::Io(format!("launch failed: {}", l)));
+        }
+        Ok(c)
+    })();
+    let dap = match setup {
+        Ok(c) => c,
+        Err(e) => {
+            verdict.notes.push(format!("setup failed: {:?}", e));
+            *slot.lock().unwrap() = Some(verdict);
+            panic!("{} setup failed", ABORT_MARKER);
+        }
+    };
+    verdict.setup_ok = true;
+    let mut s = Session {
+        case,
+        reference,
+        dap,
+        v: verdict,
+        view: View::Unknown,
+        active_bps: vec![],
+        run_from: None,
+        run_bps_throughout: vec![],
+        run_bps_ever: vec![],
+        run_bps_added: vec![],
+        pause_sent: false,
+        path: path.clone(),
+    };
+    let run = (|| -> Result<(), ClientErr> {
+        // breakpoints before the machine starts
+        s.view = View::Stopped(0);
+        s.apply_op(&Op::SetBreakpoints(case.initial_bps.clone()))?;
+        s.v.ops_done = 0;
+        s.dap.request("configurationDone", Value::Null)?;
+        // launch: free run from before the first instruction (instruction #0 may itself be a breakpoint)
+        s.begin_free_run(-1);
+        for op in &case.ops {
+            if s.v.found.is_some() || s.dap.dead {
+                break;
+            }
+            s.apply_op(op)?;
+        }
+        Ok(())
+    })();
+    if let Err(e) = run {
+        s.v.notes.push(format!("client script ended early: {:?}", e));
+    }
+    if case.end_with_drop {
+        s.dap.close();
+    } else if !s.dap.dead {
+        let _ = s.dap.send_only("disconnect", json!({}));
+    }
+    clock::sleep(Duration::from_millis(5));
+    let v = s.v.clone();
+    *slot.lock().unwrap() = Some(v);
+    panic!("{} scenario over", ABORT_MARKER);
+}
+
+// ---------------------------------------------------------------------------------------
+// Driver
+// ---------------------------------------------------------------------------------------
+
+pub struct RunResult {
+    pub found: Option<Found>,
+    pub inconclusive: bool,
+    pub verdict: Option<Verdict>,
+    pub nontrivial: bool,
+    pub trace: u64,
+    pub steps: u64,
+    pub switches: u64,
+    pub sim_us: u64,
+    pub net: NetStats,
+    pub probes: BTreeMap<&'static str, u64>,
+    pub history: Vec<HistEv>,
+    pub max_runnable: usize,
+}
+
+fn short_loc(loc: &str) -> String {
+    let l = loc.trim_start_matches("/repo/");
+    if let Some(i) = l.find("/registry/src/") {
+        let rest = &l[i + 14..];
+        return rest.splitn(2, '/').nth(1).unwrap_or(rest).to_string();
+    }
+    l.to_string()
+}
+
+fn sim_disk(case: &Case) -> SimDisk {
+    let mut d = SimDisk::new();
+    d.add_dir(WS);
+    d.add_file(format!("{}/mos.toml", WS), b"[build]\nentry = \"main.asm\"\n".to_vec());
+    d.add_file(format!("{}/main.asm", WS), case.program.as_bytes().to_vec());
+    d
+}
+
+pub fn run_case(case: &Case) -> RunResult {
+    let c2 = case.clone();
+    let out = run_execution(case.seed, case.entropy_seed, sim_disk(case), &case.knobs, move |slot| scenario(&c2, slot));
+    let verdict = out.result.clone();
+    let mut found = None;
+    let mut inconclusive = false;
+    match (&out.panic, &verdict) {
+        (Some(p), Some(v)) if p.message.contains(ABORT_MARKER) => {
+            if let Some((class, sig, msg)) = &v.found {
+                found = Some(Found { class: class.clone(), sig: sig.clone(), message: msg.clone() });
+            }
+        }
+        (Some(p), _) => {
+            if p.message.contains("max_steps") {
+                inconclusive = true;
+            } else if p.message.starts_with("deadlock") {
+                found = Some(Found { class: "deadlock".into(), sig: "deadlock".into(), message: p.message.chars().take(600).collect() });
+            } else {
+                found = Some(Found {
+                    class: "thread_panic".into(),
+                    sig: format!("thread_panic@{}", short_loc(&p.location)),
+                    message: format!("a thread of the debug adapter panicked: {} at {}", p.message.chars().take(400).collect::<String>(), short_loc(&p.location)),
+                });
+            }
+        }
+        (None, Some(v)) => {
+            if let Some((class, sig, msg)) = &v.found {
+                found = Some(Found { class: class.clone(), sig: sig.clone(), message: msg.clone() });
+            }
+        }
+        (None, None) => inconclusive = true,
+    }
+    let nontrivial = found.is_none()
+        && !inconclusive
+        && verdict.as_ref().map(|v| v.setup_ok && v.stops_observed >= 1).unwrap_or(false)
+        && out.sched.context_switches >= 10
+        && out.sched.max_runnable >= 3;
+    RunResult {
+        found,
+        inconclusive,
+        verdict,
+        nontrivial,
+        trace: out.sched.switch_hash,
+        steps: out.sched.decisions,
+        switches: out.sched.context_switches,
+        sim_us: out.sim_time_us,
+        net: out.net,
+        probes: out.probes,
+        history: out.history,
+        max_runnable: out.sched.max_runnable,
+    }
+}
+
+fn history_json(h: &[HistEv], max: usize) -> Value {
+    Value::Array(
+        h.iter()
+            .take(max)
+            .map(|e| {
+                let d = e.data.to_string();
+                json!({"seq": e.seq, "t_us": e.t_us, "who": e.who, "what": e.what, "data": if d.len() > 400 { json!(format!("{}...", &d[..400])) } else { e.data.clone() }})
+            })
+            .collect(),
+    )
+}
+
+/// ddmin over the client script (the schedule is re-searched for each candidate
+/// with a few seeds, because a schedule is not portable across workloads).
+fn minimise(case: &Case, sig: &str) -> Case {
+    let reproduces = |c: &Case| -> Option<Case> {
+        for j in 0..12u64 {
+            let mut c2 = c.clone();
+            if j > 0 {
+                c2.seed = rng::derive(case.seed, "c19.min", j);
+            }
+            if matches!(run_case(&c2).found, Some(f) if f.sig == sig) {
+                return Some(c2);
+            }
+        }
+        None
+    };
+    let mut best = match reproduces(case) {
+        Some(c) => c,
+        None => return case.clone(),
+    };
+    let ops = best.ops.clone();
+    let base = best.clone();
+    let mut last_ok = best.clone();
+    let kept = ddmin(ops, &mut |o: &[Op]| {
+        let mut c = base.clone();
+        c.ops = o.to_vec();
+        match reproduces(&c) {
+            Some(c2) => {
+                last_ok = c2;
+                true
+            }
+            None => false,
+        }
+    });
+    if last_ok.ops == kept {
+        best = last_ok;
+    }
+    // drop initial breakpoints
+    if !best.initial_bps.is_empty() {
+        let mut c = best.clone();
+        c.initial_bps.clear();
+        if let Some(c2) = reproduces(&c) {
+            best = c2;
+        }
+    }
+    // simplest knobs
+    let mut c = best.clone();
+    c.knobs.net = mos_simrt::net::NetKnobs::default();
+    if let Some(c2) = reproduces(&c) {
+        best = c2;
+    }
+    best
+}
+
+fn replay(cli: &Cli, path: &Path) -> i32 {
+    let case = match read_json(path).ok().and_then(|v| Case::from_json(&v)) {
+        Some(c) => c,
+        None => {
+            eprintln!("harness error: malformed replay file");
+            return EXIT_HARNESS;
+        }
+    };
+    let silencer = StderrSilencer::new();
+    let r = run_case(&case);
+    drop(silencer);
+    if cli.opts.contains_key("dump") {
+        println!("{}", serde_json::to_string_pretty(&history_json(&r.history, 1000)).unwrap());
+        println!("verdict: {:?}", r.verdict);
+    }
+    let rr = match r.found {
+        Some(f) => ReplayResult { violated: true, sig: f.sig, class: f.class, message: f.message, log_hash: r.trace },
+        None => ReplayResult { violated: false, sig: "-".into(), class: "-".into(), message: format!("inconclusive={} verdict={:?}", r.inconclusive, r.verdict.map(|v| (v.stops_observed, v.notes))), log_hash: r.trace },
+    };
+    print_replay_result(PROP, &rr)
+}
+
+#[derive(Default)]
+struct Acc {
+    runs: u64,
+    inconclusive: u64,
+    setup_failed: u64,
+    steps: u64,
+    switches: u64,
+    sim_us: u64,
+    nontrivial: BTreeSet<u64>,
+    traces: BTreeSet<u64>,
+    checks: BTreeMap<String, u64>,
+    counters: BTreeMap<String, u64>,
+    net: BTreeMap<String, u64>,
+    probes: BTreeMap<String, u64>,
+    violations: Vec<Violation>,
+    sigs: BTreeMap<String, u64>,
+    digests: Vec<(u64, u64)>,
+    samples: Vec<(u64, Value)>,
+}
+
+pub fn main(cli: &Cli) -> i32 {
+    if let Some(p) = &cli.replay {
+        return replay(cli, p);
+    }
+    let n = cli.runs.unwrap_or(match cli.tier {
+        Tier::Quick => 3_000,
+        Tier::Thorough => 300_000,
+    });
+    let seed = cli.seed;
+    let determinism = cli.mode.as_deref() == Some("determinism");
+    let mut ev = Evidence::new(PROP, cli);
+    let silencer = StderrSilencer::new();
+    let (mut acc, _) = par_fold(
+        n,
+        cli.workers,
+        None,
+        Acc::default,
+        |acc: &mut Acc, k: u64| {
+            let case = gen_case(seed, k);
+            let r = run_case(&case);
+            acc.runs += 1;
+            if r.inconclusive {
+                acc.inconclusive += 1;
+            }
+            acc.steps += r.steps;
+            acc.switches += r.switches;
+            acc.sim_us += r.sim_us;
+            acc.traces.insert(r.trace);
+            if r.nontrivial {
+                acc.nontrivial.insert(r.trace);
+            }
+            if let Some(v) = &r.verdict {
+                if !v.setup_ok {
+                    acc.setup_failed += 1;
+                }
+                for (k2, c) in &v.checks {
+                    *acc.checks.entry(k2.clone()).or_insert(0) += c;
+                }
+                for (k2, c) in [
+                    ("stops_observed", v.stops_observed), ("pauses", v.pauses), ("steps", v.steps), ("resumes", v.resumes),
+                    ("breakpoint_changes_while_running", v.bp_changes_while_running), ("terminated", v.terminated as u64),
+                    ("client_ops", v.ops_done), ("reference_instructions", v.trace_len as u64),
+                ] {
+                    *acc.counters.entry(k2.to_string()).or_insert(0) += c;
+                }
+            }
+            for (k2, v) in [
+                ("short_reads", r.net.short_reads), ("short_writes", r.net.short_writes), ("blocked_writes", r.net.blocked_writes),
+                ("fin", r.net.fin), ("rst", r.net.rst),
+            ] {
+                *acc.net.entry(k2.to_string()).or_insert(0) += v;
+            }
+            for (k2, v) in &r.probes {
+                *acc.probes.entry(k2.to_string()).or_insert(0) += v;
+            }
+            let mut dg = r.trace;
+            dg = rng::fnv64_extend(dg, &r.steps.to_le_bytes());
+            dg = rng::fnv64_extend(dg, format!("{:?}", r.verdict.as_ref().map(|v| (v.stops_observed, v.steps, v.pauses, v.ops_done, &v.checks))).as_bytes());
+            if let Some(f) = &r.found {
+                dg = rng::fnv64_extend(dg, f.sig.as_bytes());
+            }
+            acc.digests.push((k, dg));
+            if acc.samples.len() < 2 && r.found.is_none() && r.nontrivial {
+                acc.samples.push((k, json!({"run": k, "case": case.to_json(), "history": history_json(&r.history, 80)})));
+            }
+            if let Some(f) = r.found {
+                *acc.sigs.entry(f.sig.clone()).or_insert(0) += 1;
+                if !determinism && !acc.violations.iter().any(|v| v.sig == f.sig) {
+                    let m = minimise(&case, &f.sig);
+                    let mf = run_case(&m).found.filter(|x| x.sig == f.sig).unwrap_or(f.clone());
+                    acc.violations.push(Violation {
+                        property: PROP,
+                        class: mf.class.clone(),
+                        sig: mf.sig.clone(),
+                        message: format!("C19 run {} ({} client ops, minimised to {}): {}", k, case.ops.len(), m.ops.len(), mf.message),
+                        run_index: k,
+                        replay: m.to_json(),
+                    });
+                }
+            }
+        },
+        |t: &mut Acc, a: Acc| {
+            t.runs += a.runs;
+            t.inconclusive += a.inconclusive;
+            t.setup_failed += a.setup_failed;
+            t.steps += a.steps;
+            t.switches += a.switches;
+            t.sim_us += a.sim_us;
+            t.nontrivial.extend(a.nontrivial);
+            t.traces.extend(a.traces);
+            for (k, v) in a.checks {
+                *t.checks.entry(k).or_insert(0) += v;
+            }
+            for (k, v) in a.counters {
+                *t.counters.entry(k).or_insert(0) += v;
+            }
+            for (k, v) in a.net {
+                *t.net.entry(k).or_insert(0) += v;
+            }
+            for (k, v) in a.probes {
+                *t.probes.entry(k).or_insert(0) += v;
+            }
+            for (k, v) in a.sigs {
+                *t.sigs.entry(k).or_insert(0) += v;
+            }
+            t.violations.extend(a.violations);
+            t.digests.extend(a.digests);
+            t.samples.extend(a.samples);
+        },
+    );
+    drop(silencer);
+    acc.digests.sort();
+    let mut batch = 0xcbf2_9ce4_8422_2325u64;
+    for (k, h) in &acc.digests {
+        batch = rng::fnv64_extend(batch, &k.to_le_bytes());
+        batch = rng::fnv64_extend(batch, &h.to_le_bytes());
+    }
+    if determinism {
+        println!("DETERMINISM engine=threadsim/C19 runs={} batch_hash={:016x}", acc.runs, batch);
+        return EXIT_OK;
+    }
+    acc.samples.sort_by_key(|(k, _)| *k);
+    acc.samples.truncate(3);
+    ev.evaluations = acc.runs;
+    ev.distinct_nontrivial = acc.nontrivial.len() as u64;
+    ev.rule = format!(
+        "{} executions of the full simulated `mos lsp` process with a DAP session on the emulated test machine: program from a grammar (straight-line code, counted loops, up to 2 subroutines, macro and .loop expansion, asserts/traces; <= {} instructions), 0-3 initial breakpoints, 6-40 client operations (wait for stopped, pause, continue, next, stepIn, stepOut, stackTrace, scopes, variables, evaluate, setBreakpoints, threads) with simulated delays from {{0, 1, 10, 49, 50, 51, 200 ms}}; the seed decides every interleaving of client, session, machine, poller, reader/writer and clock tasks, stream chunking and buffer sizes. Reference: the real TestRunner run sequentially; CYC identifies the true position. distinct = distinct hash of the sequence of tasks chosen at context switches; non-trivial = violation-free AND >= 1 stop observed AND >= 10 context switches AND >= 3 tasks runnable at once",
+        n, MAX_TRACE
+    );
+    ev.samples = acc.samples.iter().map(|(_, v)| v.clone()).collect();
+    if ev.samples.is_empty() {
+        ev.samples.push(json!({"note": "no violation-free non-trivial execution in this batch", "case": gen_case(seed, 0).to_json()}));
+    }
+    ev.set("oracle_checks_evaluated", json!(acc.checks));
+    ev.set("session_counters", json!(acc.counters));
+    ev.set("inconclusive_step_budget", json!(acc.inconclusive));
+    ev.set("setup_failed", json!(acc.setup_failed));
+    ev.set("scheduling_decisions", json!(acc.steps));
+    ev.set("context_switches", json!(acc.switches));
+    ev.set("simulated_time_ms", json!(acc.sim_us / 1000));
+    ev.set("distinct_interleavings", json!(acc.traces.len()));
+    ev.set("interleaving_measure", json!("distinct hashes of the sequence of tasks chosen at context switches"));
+    ev.set("fault_kinds_injected", json!(acc.net));
+    ev.set("probes", json!(acc.probes));
+    ev.set("violation_signatures_seen_in_batch", json!(acc.sigs));
+    ev.set("batch_hash", json!(format!("{:016x}", batch)));
+    ev.set("components", json!({
+        "real": ["DebugSession loop incl. the 3-way Select and all request handlers", "Machine + poller thread", "TestRunnerAdapter + machine thread", "TestRunner + emulator_6502", "DebugConnection reader/writer threads and framing", "LspServer (config, codegen, parsing source for launch)", "lsp-server main loop and IO threads"],
+        "simulated": ["OS scheduler", "clock/timers", "TCP loopback with short reads/writes and finite buffers", "stdio pipes", "crossbeam-channel subset", "disk", "OS entropy", "DAP and LSP clients"],
+        "reference_model": "the real TestRunner executed sequentially on the same program (trace of cycles, pc, registers, flags; call stack for stepOut targets; source map for frames and breakpoint ranges)",
+        "not_run": ["VICE adapter"]
+    }));
+    ev.assumptions = vec![
+        "programs keep only return addresses on the stack inside subroutines (stepOut reads the return address from the stack top)".into(),
+        "a breakpoint set while the machine runs is judged only for instructions after a position observed after the setBreakpoints response".into(),
+        "fairness: no runnable thread is stalled for more than 1 s of simulated time".into(),
+    ];
+    let mut code = conclude(cli, &mut ev, acc.violations);
+    if (acc.inconclusive + acc.setup_failed) * 20 > acc.runs && code == EXIT_OK {
+        eprintln!("harness error: {} of {} executions inconclusive or without a session", acc.inconclusive + acc.setup_failed, acc.runs);
+        code = EXIT_HARNESS;
+    }
+    code
 }
